@@ -111,33 +111,39 @@ Proof. split; [exact origins_answer_decides_proof|exact refused_upload_is_relaye
 Print Assumptions origins_answer_survives_a_failed_upload.
 
 (* "... and subsequent bytes are relayed unchanged": after the head the request body goes on to the origin while the origin's bytes
-   are relayed (Model/RpRelay.v). For every order of events, what the client receives of the origin's answer does not depend on
-   what becomes of the upload; as long as the origin's side has not ended and the client's side has not failed the client has been
-   sent every byte the origin has sent, and the end of the origin's side takes nothing of it back - in particular when the origin
-   answers, closes with the upload unread and the write of the body fails while part of the answer is still to be passed on (a
-   response larger than one read, a client reading slower than the origin sends). As found the failed write ended the exchange
-   and cut the answer *)
-Theorem origins_answer_is_relayed_whole_after_a_failed_upload :
-  (forall evs,
-     RpRelay.relayed_of (RpRelay.run RP_FAILED_UPLOAD_STOPS_THE_UPLOAD_ONLY evs)
-     = RpRelay.relayed_of (RpRelay.run RP_FAILED_UPLOAD_STOPS_THE_UPLOAD_ONLY (filter (fun e => negb (RpRelay.is_upload e)) evs)))
-  /\ (forall evs post,
-        forallb (fun e => negb (RpRelay.is_end e)) evs = true ->
-        RpRelay.relayed_of (RpRelay.run RP_FAILED_UPLOAD_STOPS_THE_UPLOAD_ONLY evs) = RpRelay.origin_bytes evs
-        /\ RpRelay.relayed_of (RpRelay.run RP_FAILED_UPLOAD_STOPS_THE_UPLOAD_ONLY (evs ++ RpRelay.EOriginEof :: post)) = RpRelay.origin_bytes evs).
+   are relayed (Model/RpRelay.v, a DuplexPipe). RECORDED FINDING (known_findings.json, C18 rp-refused-upload-large-answer-cut): a
+   failed write of the body - the origin has answered and closed with the upload unread - ends the whole exchange, and what has not
+   yet been passed on of the origin's answer (everything beyond one read, or queued behind a client that reads slowly) is cut. The
+   witness: the origin answers in two reads and the write fails between them. A repair that simply discarded the body after the
+   failed write was tried and taken out again (it turned an origin's crash into a clean end and never ended for an endless upload);
+   telling a refusal from a crash needs the response's own framing *)
+Theorem answer_after_a_failed_upload_is_cut_known_finding :
+  exists evs,
+    forallb (fun e => negb (RpRelay.is_end e)) evs = true
+    /\ RpRelay.relayed_of (RpRelay.run RP_FAILED_UPLOAD_STOPS_THE_UPLOAD_ONLY evs) <> RpRelay.origin_bytes evs.
+Proof.
+  exists [RpRelay.EOrigin [1; 2]%N; RpRelay.EUpFailed; RpRelay.EOrigin [3; 4]%N]. split; [reflexivity|].
+  vm_compute. discriminate.
+Qed.
+Print Assumptions answer_after_a_failed_upload_is_cut_known_finding.
+
+(* what a repair has to achieve (proved of the model with the flag set, Proofs/RpRelayProofs.v: the steps of the upload have no say
+   in what is relayed, and everything the origin sent before its side ended is relayed) *)
+Theorem a_repair_relays_the_whole_answer :
+  (forall evs, RpRelay.relayed_of (RpRelay.run true evs)
+               = RpRelay.relayed_of (RpRelay.run true (filter (fun e => negb (RpRelay.is_upload e)) evs)))
+  /\ (forall evs post, forallb (fun e => negb (RpRelay.is_end e)) evs = true ->
+        RpRelay.relayed_of (RpRelay.run true evs) = RpRelay.origin_bytes evs
+        /\ RpRelay.relayed_of (RpRelay.run true (evs ++ RpRelay.EOriginEof :: post)) = RpRelay.origin_bytes evs).
 Proof. split; [exact RpRelayProofs.upload_events_do_not_matter_proof|exact RpRelayProofs.whole_answer_is_relayed_proof]. Qed.
-Print Assumptions origins_answer_is_relayed_whole_after_a_failed_upload.
+Print Assumptions a_repair_relays_the_whole_answer.
 
 Theorem code_facts :
   DEMUX_SELECT_AS_MODELLED = true /\ SPEEDTEST_AS_MODELLED = true /\ PING_ANSWERS_200_EOF = true
   /\ RP_DESTINATION_IS_CONFIGURED_ORIGIN = true /\ SERVICE_CHANNELS_DO_NOT_AUTHENTICATE = true
   (* the wait for the origin's response head reads the origin first and survives a failed write of the request body (the shape
      the scenario c18_rp_refusal was written from: an origin that answers 413 and closes with the body unread) *)
-  /\ RP_HEAD_WAIT_KEEPS_THE_ORIGINS_ANSWER = true
-  (* once the head is relayed, the failure of the origin-bound write ends the upload only: the rest of the origin's answer, which
-     may be larger than one read or queued behind a slow client, is still relayed (scenario c18_rp_refusal with a drained origin
-     and a slow reader) *)
-  /\ RP_FAILED_UPLOAD_STOPS_THE_UPLOAD_ONLY = true.
+  /\ RP_HEAD_WAIT_KEEPS_THE_ORIGINS_ANSWER = true.
 Proof. repeat split; exact eq_refl. Qed.
 Print Assumptions code_facts.
 
